@@ -14,7 +14,8 @@ open Manticore.Consts (byteAt window)
 /-- `UUID.Marshal`: the nibble masks and shifts -/
 theorem consts_match_model_marshal (u : UUID) :
     marshal u =
-    (let d := u.data
+    (
+      let d := u.data
       let data6high := (d.d6 &&& UInt8.ofNat ConstsC13.m_d6hi_mask) >>> UInt8.ofNat ConstsC13.m_d6hi_shift
       let data6low := d.d6 &&& UInt8.ofNat ConstsC13.m_d6lo_mask
       let data7high := (d.d7 &&& UInt8.ofNat ConstsC13.m_d7hi_mask) >>> UInt8.ofNat ConstsC13.m_d7hi_shift
@@ -80,7 +81,8 @@ theorem consts_match_model_unmarshal_short (m : Bytes) (h : m.length < ConstsC13
 /-- `UUIDv1.Marshal`: field masks and shifts -/
 theorem consts_match_model_v1Data (v : V1) :
     v1Data v =
-    (let timeLow : UInt32 := (v.time &&& UInt64.ofNat ConstsC13.v1_timeLow_mask).toUInt32
+    (
+      let timeLow : UInt32 := (v.time &&& UInt64.ofNat ConstsC13.v1_timeLow_mask).toUInt32
       let timeMid : UInt16 := ((v.time &&& UInt64.ofNat ConstsC13.v1_timeMid_mask) >>> UInt64.ofNat ConstsC13.v1_timeMid_shift).toUInt16
       let timeHigh : UInt16 := ((v.time &&& UInt64.ofNat ConstsC13.v1_timeHigh_mask) >>> UInt64.ofNat ConstsC13.v1_timeHigh_shift).toUInt16
       { d0 := (timeLow >>> 24).toUInt8, d1 := (timeLow >>> 16).toUInt8, d2 := (timeLow >>> 8).toUInt8, d3 := timeLow.toUInt8
@@ -93,7 +95,8 @@ theorem consts_match_model_v1Data (v : V1) :
 /-- `UUIDv1.Marshal`: the version written -/
 theorem consts_match_model_v1Marshal (v : V1) :
     v1Marshal v =
-    (marshal { version := UInt8.ofNat ConstsC13.v1_version, variant := v.variant, data := v1Data v }) := by exact rfl
+    (
+    marshal { version := UInt8.ofNat ConstsC13.v1_version, variant := v.variant, data := v1Data v }) := by exact rfl
 
 /-- `UUIDv1.Marshal`: big-endian 32- and 16-bit stores at [0:4] and [4:6], bytes 6, 7, 8, node at [9:15] — the positions of
     the model's `d0`…`d14` -/
@@ -106,7 +109,8 @@ theorem consts_match_model_v1Data_layout :
 /-- `UUIDv1.Unmarshal`: field masks and shifts -/
 theorem consts_match_model_v1OfUUID (u : UUID) :
     v1OfUUID u =
-    (let d := u.data
+    (
+      let d := u.data
       let timeLow : UInt32 := be32 d.d0 d.d1 d.d2 d.d3
       let timeMid : UInt16 := be16 d.d4 d.d5
       let timeHigh : UInt16 := (d.d6.toUInt16 <<< UInt16.ofNat ConstsC13.v1_u_timeHigh_shiftA) ||| ((d.d7 >>> UInt8.ofNat ConstsC13.v1_u_timeHigh_shiftB).toUInt16 &&& UInt16.ofNat ConstsC13.v1_u_timeHigh_mask)
@@ -128,7 +132,8 @@ theorem consts_match_model_v1OfUUID_layout :
 /-- `UUIDv1.Unmarshal`: minimum length and the accepted version -/
 theorem consts_match_model_v1Unmarshal (m : Bytes) :
     v1Unmarshal m =
-    (if m.length < ConstsC13.v1_u_minLen then .err
+    (
+      if m.length < ConstsC13.v1_u_minLen then .err
       else match unmarshal m with
         | .ok u => if u.version != UInt8.ofNat ConstsC13.v1_u_version then .err else .ok (v1OfUUID u)
         | .err => .err
@@ -137,7 +142,8 @@ theorem consts_match_model_v1Unmarshal (m : Bytes) :
 /-- `UUIDv2.Marshal`: field masks and shifts -/
 theorem consts_match_model_v2Data (v : V2) :
     v2Data v =
-    (let ldn := v.localDomainNumber
+    (
+      let ldn := v.localDomainNumber
       let timeMid : UInt16 := ((v.time &&& UInt64.ofNat ConstsC13.v2_timeMid_mask) >>> UInt64.ofNat ConstsC13.v2_timeMid_shift).toUInt16
       let timeHigh : UInt16 := ((v.time &&& UInt64.ofNat ConstsC13.v2_timeHigh_mask) >>> UInt64.ofNat ConstsC13.v2_timeHigh_shift).toUInt16
       { d0 := (ldn >>> 24).toUInt8, d1 := (ldn >>> 16).toUInt8, d2 := (ldn >>> 8).toUInt8, d3 := ldn.toUInt8
@@ -150,7 +156,8 @@ theorem consts_match_model_v2Data (v : V2) :
 /-- `UUIDv2.Marshal`: the version written -/
 theorem consts_match_model_v2Marshal (v : V2) :
     v2Marshal v =
-    (marshal { version := UInt8.ofNat ConstsC13.v2_version, variant := v.variant, data := v2Data v }) := by exact rfl
+    (
+    marshal { version := UInt8.ofNat ConstsC13.v2_version, variant := v.variant, data := v2Data v }) := by exact rfl
 
 /-- `UUIDv2.Marshal`: big-endian 32- and 16-bit stores at [0:4] and [4:6], bytes 6, 7, 8, node at [9:15] — the positions of
     the model's `d0`…`d14` -/
@@ -163,7 +170,8 @@ theorem consts_match_model_v2Data_layout :
 /-- `UUIDv2.Unmarshal`: field masks and shifts -/
 theorem consts_match_model_v2OfUUID (u : UUID) :
     v2OfUUID u =
-    (let d := u.data
+    (
+      let d := u.data
       let timeMid : UInt16 := be16 d.d4 d.d5
       let timeHigh : UInt16 := (d.d6.toUInt16 <<< UInt16.ofNat ConstsC13.v2_u_timeHigh_shiftA) ||| ((d.d7 >>> UInt8.ofNat ConstsC13.v2_u_timeHigh_shiftB).toUInt16 &&& UInt16.ofNat ConstsC13.v2_u_timeHigh_mask)
       { variant := u.variant
@@ -186,7 +194,8 @@ theorem consts_match_model_v2OfUUID_layout :
 /-- `UUIDv2.Unmarshal`: minimum length and the accepted version -/
 theorem consts_match_model_v2Unmarshal (m : Bytes) :
     v2Unmarshal m =
-    (if m.length < ConstsC13.v2_u_minLen then .err
+    (
+      if m.length < ConstsC13.v2_u_minLen then .err
       else match unmarshal m with
         | .ok u => if u.version != UInt8.ofNat ConstsC13.v2_u_version then .err else .ok (v2OfUUID u)
         | .err => .err
@@ -244,7 +253,8 @@ theorem consts_match_model_guid_shape :
 /-- `GUID.ToBytes`: the shifts of A, B, C, D and the loop `eBytes[5-i] = byte((E >> (i*8)) & 0xff)` unrolled -/
 theorem consts_match_model_toBytes (g : GUID) :
     toBytes g =
-    ([g.A.toUInt8, (g.A >>> UInt32.ofNat ConstsC13.t_A_s1).toUInt8, (g.A >>> UInt32.ofNat ConstsC13.t_A_s2).toUInt8, (g.A >>> UInt32.ofNat ConstsC13.t_A_s3).toUInt8,
+    (
+      [g.A.toUInt8, (g.A >>> UInt32.ofNat ConstsC13.t_A_s1).toUInt8, (g.A >>> UInt32.ofNat ConstsC13.t_A_s2).toUInt8, (g.A >>> UInt32.ofNat ConstsC13.t_A_s3).toUInt8,
        g.B.toUInt8, (g.B >>> UInt16.ofNat ConstsC13.t_B_s1).toUInt8,
        g.C.toUInt8, (g.C >>> UInt16.ofNat ConstsC13.t_C_s1).toUInt8,
        (g.D >>> UInt16.ofNat ConstsC13.t_D_s0).toUInt8, g.D.toUInt8,
